@@ -33,8 +33,11 @@ def cases(draw):
         n = draw(st.one_of(st.sampled_from(LENS), st.integers(0, 6000)))
         dens = draw(st.sampled_from([0, 0, 10, 50, 100]))
         ops.append(dict(op="w", n=n, lf=dens, tag=i))
-        if draw(st.integers(0, 4)) == 0:
+        r = draw(st.integers(0, 9))
+        if r < 2:
             ops.append(dict(op="flush"))
+        elif r < 4:
+            ops.append(dict(op="v"))         # the configured default fail message: queued by add_vmessage, which flushes at its end
     plan = []
     for _ in range(draw(st.integers(0, 14))):
         k = draw(st.sampled_from(["F", "F", "P", "P", "P", "W", "W", "I", "E" if draw(st.integers(0, 5)) == 0 else "W"]))
@@ -60,6 +63,9 @@ def message(op):
     if lf == 100:
         out = bytearray(b"\n" * n)
     return bytes(out)
+
+
+FAILMSG = b"Zonk? no such verb here"
 
 
 class RingModel:
@@ -146,6 +152,7 @@ int emit(string plan) {
   // plan: "w3,f,w0,..." : write message 3, flush, write message 0 ...
   foreach (string s in explode(plan, ",")) {
     if (s == "f") flush_messages(user);
+    else if (s == "v") user->vcmd();
     else tell_object(user, msgs[to_int(s[1..])]);
   }
   return 1;
@@ -153,7 +160,8 @@ int emit(string plan) {
 '''
 USER = r'''
 void create() { seteuid(getuid()); }
-void logon() { "/t/c14d"->set_user(this_object()); }
+void logon() { "/t/c14d"->set_user(this_object()); enable_commands(); }
+int vcmd() { return command("zzqx nothing"); }
 mixed process_input(string s) { return 1; }
 void net_dead() { }
 void write_prompt() { }
@@ -167,6 +175,10 @@ def evaluate_case(ctx, w, case):
     for o in ops:
         if o["op"] == "flush":
             model.flush()
+        elif o["op"] == "v":
+            model.add(FAILMSG + b"\n")
+            if model.buf:
+                model.flush()
         else:
             model.add(message(o))
     in_call_sent = bytes(model.sent)
@@ -195,7 +207,7 @@ def evaluate_case(ctx, w, case):
             steps.append(["call", "t/c14d", "prepare", arg(o["tag"]), arg(o["n"]), arg(o["lf"])])
     steps.append(["sendlog"])
     steps.append(["sendplan"] + conc)
-    steps.append(["call", "t/c14d", "emit", arg(",".join("f" if o["op"] == "flush" else "w%d" % o["tag"] for o in ops))])
+    steps.append(["call", "t/c14d", "emit", arg(",".join("f" if o["op"] == "flush" else ("v" if o["op"] == "v" else "w%d" % o["tag"]) for o in ops))])
     emit_i = len(steps) - 1
     steps.append(["sendplan"])
     steps.append(["sendlog"])
@@ -240,7 +252,8 @@ _workers = {}
 def get_worker(ctx):
     w = _workers.get(ctx.rundir)
     if w is None:
-        w = Worker(ctx.scratch("w"), timeout=30, mudlib_files={"t/c14d.c": DAEMON, "user.c": USER}, ports=["4000:telnet"])
+        w = Worker(ctx.scratch("w"), timeout=30, mudlib_files={"t/c14d.c": DAEMON, "user.c": USER}, ports=["4000:telnet"],
+                   conf={"DefaultFailMsg": FAILMSG.decode()})
         _workers[ctx.rundir] = w
     return w
 
